@@ -61,7 +61,14 @@ def run_check(pid, tier):
     except RuntimeError as e:
         broken.append({"kind": "model-build", "why": "the model driver does not build against the regenerated Gen/*.lean", "log": str(e)[-3000:]})
     else:
-        corr = mod.correspond(ctx)
+        try:
+            corr = mod.correspond(ctx)
+        except Exception as e:  # noqa: BLE001
+            # the harness could not drive the changed code (an extraction wrapper no longer fits, a translator
+            # refuses inside the correspondence): the tie is broken, not the harness - go on to the search
+            broken.append({"kind": "correspondence-crash", "why": "%s: %s" % (type(e).__name__, str(e)[:300]),
+                           "log": traceback.format_exc()[-2500:]})
+            corr = {}
     for d in corr.get("disagreements", []):
         broken.append({"kind": "correspondence", "stream": d.get("stream"), "input": d.get("input"),
                        "model": d.get("model"), "impl": d.get("impl")})
@@ -69,7 +76,10 @@ def run_check(pid, tier):
     # 5. failing-input search when anything is broken
     if broken and hasattr(mod, "search"):
         hints = [d.get("input") for d in corr.get("disagreements", [])]
-        failures += mod.search(ctx, hints) or []
+        try:
+            failures += mod.search(ctx, hints) or []
+        except Exception as e:  # noqa: BLE001
+            broken.append({"kind": "search-crash", "why": "%s: %s" % (type(e).__name__, str(e)[:300])})
     known_lines = []
     seen = set()
     for f in failures:
